@@ -45,7 +45,7 @@ RULE = ('boundary streams (every CompactSize form change for input/output/witnes
         'sessions: systematic and random sequences of reader calls on one Block object (every entry point, '
         'parse_transactions with limit 0 / below / equal / above the count, both dictionary readers, serialize) judged '
         'after every call; a case is non-trivial when the implementation parses/builds it; distinct by request')
-IMPL_TIMEOUT = 3000
+IMPL_TIMEOUT = 9000     # thorough tier: a witness stack of 65535 items costs the library ~10 minutes per parse
 
 
 # ---------------------------------------------------------------- independent oracle, written from the protocol
